@@ -85,7 +85,7 @@ def type_of(interp, v):
         return b["tuple"]
     if isinstance(v, PyList):
         return b["list"]
-    if isinstance(v, PyDict):
+    if isinstance(v, PyDict) or type(v).__name__ == "OpenDict":
         return b["dict"]
     if isinstance(v, PySet):
         return b["set"]
@@ -133,7 +133,7 @@ def isinstance_(interp, v, t):
         if tn == "list":
             return isinstance(v, PyList)
         if tn == "dict":
-            return isinstance(v, PyDict)
+            return isinstance(v, PyDict) or type(v).__name__ == "OpenDict"
         if tn == "set":
             return isinstance(v, PySet)
         if tn == "NoneType":
@@ -253,6 +253,8 @@ def fstring(interp, node, fr):
 
 def iterate(interp, v):
     """Concrete list of the items of an iterable (concrete length required)."""
+    if type(v).__name__ in ("OpenDict", "OpenItems"):
+        raise Unsupported("iteration over a dict of unknown size (open dict)")
     if isinstance(v, (PyList, PyDeque, PySet)):
         return list(v.items)
     if isinstance(v, tuple):
@@ -366,6 +368,12 @@ def getitem(interp, obj, idx):
         if r is NOT_IMPLEMENTED:
             interp.throw("KeyError", idx)
         return r
+    if type(obj).__name__ == "OpenDict":
+        from . import opendict
+        r = opendict.lookup(interp, obj, idx)
+        if r is opendict.ABSENT:
+            interp.throw("KeyError", idx)
+        return r
     if isinstance(obj, str):
         if isinstance(idx, SliceV):
             return obj[slice(idx.lo, idx.hi, idx.step)]
@@ -442,6 +450,10 @@ def setitem(interp, obj, idx, val):
     if isinstance(obj, PyDict):
         interp.dict_set(obj, idx, val)
         return
+    if type(obj).__name__ == "OpenDict":
+        from . import opendict
+        opendict.store(interp, obj, idx, val)
+        return
     if isinstance(obj, Instance):
         f, _ = interp.class_lookup(obj.cls, "__setitem__")
         if f is not None:
@@ -451,6 +463,10 @@ def setitem(interp, obj, idx, val):
 
 
 def delitem(interp, obj, idx):
+    if type(obj).__name__ == "OpenDict":
+        from . import opendict
+        opendict.delete(interp, obj, idx)
+        return
     if isinstance(obj, PyDict):
         for i, (k, v) in enumerate(obj.pairs):
             if interp.truth(interp.eq(k, idx)):
@@ -473,6 +489,22 @@ def bytes_contains(interp, container, item):
             raise Unsupported("'in' on octets of symbolic length")
         return ops.b_or(*[ops.cmp("==", wrap_elem(e), item) for e in rope])
     raise Unsupported("subsequence test on octets")
+
+
+def open_list_eq(interp, a, b):
+    """== of lists of which at least one has an unknown prefix: element sequences as Seq(Int)."""
+    def seq_of(l):
+        parts = [] if l.prefix is None else [l.prefix]
+        for x in l._items:
+            if not is_intlike(x):
+                raise Unsupported("open list with non-integer elements")
+            parts.append(z3.Unit(ops.zi(as_int(x))))
+        if not parts:
+            return EMPTY_SEQ
+        return parts[0] if len(parts) == 1 else z3.Concat(*parts)
+    if a.prefix is not None and b.prefix is not None and a.prefix.eq(b.prefix) and len(a._items) == len(b._items):
+        return ops.b_and(*[interp.symtruth(interp.eq(x, y)) for x, y in zip(a._items, b._items)])
+    return ops.mkbool(seq_of(a) == seq_of(b))
 
 
 def special_contains(interp, container, item):
@@ -553,6 +585,8 @@ def binop(interp, op, a, b, inplace=False):
         return FStrV([a, (b, -1, "%")])
     if isinstance(a, str) and t is ast.Mult and isinstance(b, int):
         return a * b
+    if isinstance(a, PyList) and isinstance(b, PyList) and t is ast.Add and a.prefix is not None and b.prefix is None and not inplace:
+        return PyList(a._items + b._items, a.prefix)
     if isinstance(a, PyList) and isinstance(b, PyList) and t is ast.Add:
         if inplace:
             a.items.extend(b.items)
